@@ -116,7 +116,7 @@ def _walker(center, left, right, s):
 
 def _check_interp(steps, scheme, res, case_extra=None):
     center = _verts(steps)
-    left, right = _bounds(center, "const" if scheme == "3d" else scheme)
+    left, right = _bounds(center, "const" if scheme in ("3d", "setters", "3d-flattened") else scheme)
     if scheme == "3d":
         # (n, 3) polylines: a ramp whose height changes from vertex to vertex; the length of the centre line is its length in space
         zs = [0.0, 2.0, 2.0, 7.0, 3.0][:len(center)]
@@ -124,7 +124,17 @@ def _check_interp(steps, scheme, res, case_extra=None):
     case = {"k": "interp", "steps": [list(s) for s in steps], "scheme": scheme}
     res.states += 1
     try:
-        ll = _mk_lanelet(center, left, right, 1, dtype=int if scheme == "int" else float)
+        if scheme == "setters":
+            # another geometry at construction; the real one is assigned through the public vertex setters before anything is queried
+            import numpy as np
+            ll = _mk_lanelet([(2 * x + 1, y - 3) for x, y in center], [(2 * x + 1, y - 2) for x, y in left], [(2 * x + 1, y - 4) for x, y in right], 1)
+            ll.left_vertices = np.array(left, dtype=float); ll.center_vertices = np.array(center, dtype=float); ll.right_vertices = np.array(right, dtype=float)
+        elif scheme == "3d-flattened":
+            zs = [0.0, 2.0, 2.0, 7.0, 3.0][:len(center)]
+            ll = _mk_lanelet(*([(x, y, z) for (x, y), z in zip(P, zs)] for P in (center, left, right)), 1)
+            ll.convert_to_2d()
+        else:
+            ll = _mk_lanelet(center, left, right, 1, dtype=int if scheme == "int" else float)
         dist = [float(x) for x in ll.distance]
     except Exception as e:
         res.violation(f"C20|distance|raises:{type(e).__name__}", repr(e), case)
@@ -310,11 +320,31 @@ def _check_graph(n, mask, edges, lens, res):
                                     pred=pred[i], succ=succ[i]))
     net = LaneletNetwork.create_from_lanelet_list(lanelets)
     res.states += 1
-    for start in range(1, n + 1):
+    _graph_queries(net, n, edges, lens, succ, pred, list(range(1, n + 1)), RANGES, res, "")
+    if n >= 2:
+        # the network reached by REMOVING a lanelet from a network whose links are stored on one side only (successor lists, no predecessor
+        # lists): the remaining lanelets' successor chains are those of the graph without that lanelet
+        one_sided = [_mk_lanelet([(0, 10.0 * i), (lens[i - 1], 10.0 * i)], [(0, 10.0 * i + 1), (lens[i - 1], 10.0 * i + 1)], [(0, 10.0 * i - 1), (lens[i - 1], 10.0 * i - 1)], i,
+                                 pred=[], succ=succ[i]) for i in range(1, n + 1)]
+        net2 = LaneletNetwork.create_from_lanelet_list(one_sided, cleanup_ids=False)
+        try:
+            net2.remove_lanelet(n)
+        except Exception as e:
+            res.violation(f"C20|after-removal|remove_lanelet-raises:{type(e).__name__}", repr(e), {"k": "graph", "n": n, "edges": [list(e_) for e_ in edges], "lens": list(lens)})
+            return
+        succ2 = {i: [j for j in succ[i] if j != n] for i in range(1, n)}
+        _graph_queries(net2, n, edges, lens, succ2, None, list(range(1, n)), [15, 1000], res, "after-removal:")
+
+
+def _graph_queries(net, n, edges, lens, succ, pred, starts, ranges, res, tag):
+    for start in starts:
         ll = net.find_lanelet_by_id(start)
         for direction, rel, fn in (("successors", succ, ll.find_lanelet_successors_in_range),
                                    ("predecessors", pred, ll.find_lanelet_predecessors_in_range)):
-            for R in RANGES:
+            if rel is None:
+                continue
+            direction = tag + direction
+            for R in ranges:
                 case = {"k": "graph", "n": n, "edges": [list(e) for e in edges], "lens": list(lens), "start": start,
                         "dir": direction, "range": R}
                 res.evals += 1; res.transitions += 1
@@ -363,7 +393,7 @@ def run_unit(unit, tier):
     if k == "interp":
         pl = _polylines(unit["ms"])[unit["lo"]:unit["hi"]]
         for steps in pl:
-            for scheme in OFFS + ["int", "3d"]:
+            for scheme in OFFS + ["int", "3d", "setters", "3d-flattened"]:
                 _check_interp(steps, scheme, res)
             res.sample({"k": "interp", "steps": steps}, 2)
     elif k == "merge":
